@@ -1,7 +1,7 @@
 /-
   PyodaGen.GlueC12 — the structures the GENERATED comparison file (PyodaGen/C12.lean) builds: the packed integers of
   `_YearMonthDay` / `_YearMonthDayCalendar` (one attribute `__value` each) and a `LocalDate` (one attribute, its
-  `_YearMonthDayCalendar`).  Not generated.
+  `_YearMonthDayCalendar`), a `LocalDateTime`, a `YearMonth`, an `AnnualDate`, and the identity of a calendar.  Not generated.
 -/
 import PyodaModel.Compare
 
@@ -17,6 +17,32 @@ structure YMDC where
 
 structure LDate where
   ymdc : YMDC
+  deriving DecidableEq, Repr, Inhabited
+
+/-- a `CalendarSystem` object.  `CalendarSystem._for_ordinal` hands out ONE object per ordinal (the class keeps them in
+    `__CALENDAR_BY_ORDINAL`), and calendars are compared by identity, so a calendar is carried as its ordinal — the same
+    identification the comparison model makes (`a.date.ordinal = b.date.ordinal`). -/
+structure CalRef where
+  ord : Int
+  deriving DecidableEq, Repr, Inhabited
+
+/-- `CalendarSystem._for_ordinal(ordinal)` -/
+def calendarOfOrdinal (ordinal : Int) : CalRef := ⟨ordinal⟩
+
+/-- a `LocalDateTime`: its `__date` and `__time` -/
+structure LDT where
+  date : LDate
+  time : Pyoda.Compare.LocalTime
+  deriving DecidableEq, Repr, Inhabited
+
+/-- a `YearMonth`: its `__start_of_month` -/
+structure YM where
+  som : YMDC
+  deriving DecidableEq, Repr, Inhabited
+
+/-- an `AnnualDate`: its `__value` (a `_YearMonthDay` in year 1) -/
+structure ADate where
+  value : YMD
   deriving DecidableEq, Repr, Inhabited
 
 end Pyoda.Gen.Compare
